@@ -30,6 +30,8 @@ RULE = ("states = (model state, implementation fingerprint) pairs of the history
 
 TEXTS = {k: c11.TEXTS[k] for k in ("A", "A_trivia", "A_weights", "B")}
 TEXTS["open_comment_after"] = c11.TEXTS["open_comment_after"]
+TEXTS["named_map"] = c11.TEXTS["named_map"]
+TEXTS["named_str"] = 'def str { if f == 1 { return "S1" weighted 1 } else { return "S2" weighted 1 } }'
 TEXTS["A_utf8"] = 'def exp { salt: "é" splitters: org, uid return "U1" weighted 1, "U2" weighted 1, "U3" weighted 1 }'
 INPUTS = [
     {"uid": 1, "org": "1", "f": 1, "g": 3},
